@@ -2,6 +2,8 @@
 import csv, io, json, re
 from vlib import *
 from checks import c06
+from checks import c05_batch
+import os, shutil, tempfile
 
 FLAGS = ["default", "S", "A", "O"]
 FLAGN = {"default": 0, "S": 1, "A": 2, "O": 3}
@@ -118,7 +120,7 @@ def run_ops(ctx, flag, ofmt, cases):
 
 def ops_correspondence(ctx, props_ok):
     rng = ctx.rng
-    n_per = 130 if ctx.tier == "quick" else 4000
+    n_per = 160 if ctx.tier == "quick" else 4000
     terms, meta = [], []
     oracle_bad = []
     for flag in FLAGS:
@@ -337,21 +339,26 @@ def parse_dkvp(out):
     return recs
 
 
-def pmap_mlr(ctx, jobs, workers=None):
-    """run [(args, stdin)] through mlr_run concurrently (mlr start-up costs ~1 s of CPU in this tree); results in order"""
-    from concurrent.futures import ThreadPoolExecutor
-    import os
-    workers = workers or int(os.environ.get("VERIF_PAR", "2"))    # raise on an idle machine (mlr start-up costs ~1 s CPU)
-    with ctx.timed("impl"):
-        with ThreadPoolExecutor(max_workers=workers) as ex:
-            res = list(ex.map(lambda j: mlr_run(ctx, j[0], j[1], timeout=90), jobs))
-    # a loaded machine can starve a run: retry timeouts once, alone
-    return [mlr_run(ctx, j[0], j[1], timeout=120) if r[0] == "hang" else r for j, r in zip(jobs, res)]
+def pmap_mlr(ctx, jobs, ext="dat"):
+    """run [(args, stdin)] with the stdin bytes in a scratch file named last on the command line, all inside a few
+    implrun mlr-batch processes; results in order as (status, stdout, stderr)"""
+    d = tempfile.mkdtemp(prefix="verif-c03-")
+    try:
+        bj = []
+        for i, (args, inp) in enumerate(jobs):
+            name = "in%d.%s" % (i, ext)
+            Path(d, name).write_bytes(inp)
+            bj.append((list(args) + [name], d))
+        res = c05_batch.run_batch(ctx, bj)
+        c05_batch.crosscheck(ctx, bj, res, k=4)
+        return res
+    finally:
+        shutil.rmtree(d, ignore_errors=True)
 
 
 def program_correspondence(ctx, props_ok):
     rng = ctx.rng
-    nprog = 40 if ctx.tier == "quick" else 1500
+    nprog = 80 if ctx.tier == "quick" else 1500
     terms, meta = [], []
     plans = []
     for pi in range(nprog):
@@ -534,7 +541,7 @@ def parse_output(fmt, out, nkeys_hint=None):
 def pipeline_oracle(ctx):
     """read-only chains over every spelling class x inference flags x non-JSON writers: unassigned cells byte-identical, same relative order"""
     rng = ctx.rng
-    nruns = 100 if ctx.tier == "quick" else 6000
+    nruns = 200 if ctx.tier == "quick" else 6000
     checked_cells = 0
     reported = 0
     plans = []
@@ -574,6 +581,10 @@ def pipeline_oracle(ctx):
         ctx.dist("pipeline_flag:" + flag)
         for v in chain:
             ctx.dist("verb:" + v[0])
+        if st not in (0, 1):
+            ctx.violation({"broken": "pipeline run died (panic, exit inside a verb, or hang)", "kind": "pipeline", "args": args, "stdin": inp.decode("latin1"),
+                           "stdin_hex": inp.hex(), "status": st, "stderr": err.decode("latin1")[-600:]}, found_input=False)
+            continue
         if st != 0:
             # e.g. asserting_* failing is a legitimate error exit; not this property's concern
             ctx.dist("pipeline_nonzero_exit")
@@ -668,8 +679,13 @@ def replay(ctx, path):
             hit = [dict(r).get(obj["field"].encode()) for r in outs if dict(r).get(b"id", b"").decode() == obj.get("record_id")]
             if not hit or any(h is None or h.decode("latin1") != obj["expected"] for h in hit):
                 ctx.violation(dict(obj, replayed=True, observed_now=[h.decode("latin1") if h else None for h in hit]))
-        elif st != 0 or out.decode("latin1") != obj.get("observed_stdout", out.decode("latin1")):
-            ctx.violation(dict(obj, replayed=True))
+        elif obj.get("changed_fields"):
+            outs = parse_dkvp(out)
+            still = [kv for kv in obj["changed_fields"] if not any((kv[0].encode(), kv[1].encode("latin1")) in r for r in outs)]
+            if st != 0 or still:
+                ctx.violation(dict(obj, replayed=True, still_changed=still))
+        elif st != 0:
+            ctx.violation(dict(obj, replayed=True), found_input=False)
     elif kind == "method-sweep":
         method_sweep(ctx)
     else:
